@@ -196,6 +196,7 @@ def _is_any(dim: Any) -> bool:
 
 
 ANY_DIMS = (MU.L, MU.ENERGY, MU.T, MU.M / MU.L**3, MU.CHARGE, MU.L / MU.T)
+REGIMES = ("1/2", "3", "8", "11", "14", "25")  # values given to the argument of a law's exponential
 MICRO = (-9, -26, -12, -6, 2, 0, 0)  # typical microscopic scales per base dimension (powers of ten)
 
 
@@ -547,12 +548,56 @@ def _infinite_mismatch(eq: Any, sub: dict[Any, Any], qsub: dict[Any, Any]) -> st
     return f"left-hand side evaluates to {lv}, right-hand side to {rv}"
 
 
+def _steer_regime(desc: dict[str, Any], a: Any, b: Any, target: Any) -> bool:
+    """Replace the SI value of one parameter (in both argument variants) so that the first exponential argument of the
+    published equation equals `target`.  Only for monomial-like arguments that can be solved for a positive value."""
+    import sympy
+    from sympy.physics.units import Quantity as SymQuantity
+    from symplyphysics import Quantity
+    if desc["equation"] is None:
+        return False
+    _attr, eq = desc["equation"]
+    exps = sorted([e for e in (eq.lhs - eq.rhs).atoms(sympy.exp)], key=str)
+    if not exps:
+        return False
+    arg = exps[0].args[0]
+    args_a, si_a, _ = a
+    args_b, si_b, _ = b
+    params = desc["params"]
+    cands = [i for i, p in enumerate(params) if p["sym"] is not None and arg.has(p["sym"]) and _dimvec(p["dim"]) is not None
+        and not _dimvec(p["dim"]).is_dimensionless and isinstance(args_a[i], SymQuantity)]
+    if not cands:
+        return False
+    i = cands[-1]
+    s_i = params[i]["sym"]
+    sub = {p["sym"]: v for j, (p, v) in enumerate(zip(params, si_a)) if j != i and p["sym"] is not None}
+    qsub = {q: si_value(q) for q in arg.atoms(SymQuantity)}
+    try:
+        expr = arg.xreplace(sub).xreplace(qsub)
+        sols = sympy.solve(sympy.Eq(expr, -abs(target)) if sympy.N(expr.subs(s_i, 1)) < 0 else sympy.Eq(expr, abs(target)), s_i)
+        vals = [sympy.nsimplify(sympy.N(v, 30), rational=True) for v in sols if sympy.N(v).is_real and sympy.N(v) > 0]
+    except Exception:  # pylint: disable=broad-except
+        return False
+    if not vals:
+        return False
+    v = sympy.Rational(sympy.N(vals[0], 12))
+    unit = _dimvec(params[i]["dim"]).si_unit()
+    args_a[i] = Quantity(v * unit)
+    args_b[i] = Quantity((v * 1000) * getattr(__import__("symplyphysics").prefixes, "milli") * unit)
+    si_a[i] = v
+    si_b[i] = v
+    return True
+
+
 def _judge(desc: dict[str, Any], recipe: list[Any], profile: str = "macro") -> tuple[list[tuple[str, str]], dict[str, Any]]:
     # pylint: disable=too-many-locals,too-many-branches,too-many-statements,too-many-return-statements
     import sympy
     from sympy.physics.units import Quantity as SymQuantity
     site = f"{short(desc['module'])}:{desc['name']}"
     info: dict[str, Any] = {"status": "ok", "tier": "meta"}
+    regime = None
+    if profile.startswith("regime:"):
+        regime, profile = sympy.Rational(profile.split(":")[1]), "macro"
     a = build_args(desc, recipe, 0, profile)
     b = build_args(desc, recipe, 1, profile)
     if a is None or b is None:
@@ -560,6 +605,11 @@ def _judge(desc: dict[str, Any], recipe: list[Any], profile: str = "macro") -> t
         if seq is not None:
             return seq
         return [], {"status": "unsupported-parameter"}
+    if regime is not None:
+        # steer one parameter so that the argument of the law's exponential takes a chosen value (h nu / k T = 12, ...):
+        # random magnitudes practically never reach the regime where an exponential law changes character
+        if not _steer_regime(desc, a, b, regime):
+            return [], {"status": "no-regime-to-steer"}
     args_a, si_a, inf_a = a
     args_b, si_b, _inf_b = b
     names = [p["name"] for p in desc["params"]]
@@ -904,6 +954,7 @@ def _show(args: list[Any]) -> str:
 
 
 def _shard(task: dict[str, Any]) -> Recorder:
+    import sympy
     rec = Recorder()
     recipes: list[Any] = []
     hyp_run(recipe_strategy(task["kmax"]), recipes.append, task["k"] * 3, task["seed"])
@@ -944,6 +995,18 @@ def _shard(task: dict[str, Any]) -> Recorder:
                             labels=["profile:tiny", "tier:" + str(info3.get("tier"))])
                     elif info3.get("status") == "hang":
                         rec.inconclusive += 1
+                if r_i == 0 and desc["equation"] is not None and (desc["equation"][1].lhs - desc["equation"][1].rhs).has(sympy.exp):
+                    targets = REGIMES if task.get("tiny_all") or task.get("all_regimes") else [REGIMES[(len(site) + k_) % len(REGIMES)] for k_ in (0, 3)]
+                    for tg in targets:
+                        res6, info6 = judge(desc, recipe, profile="regime:" + tg)
+                        st6 = str(info6.get("status", "ok")).split(":")[0]
+                        for key, what in res6:
+                            rec.violation(key, what, {"module": modname, "function": fname, "recipe": recipe, "profile": "regime:" + tg})
+                        if st6 == "hang":
+                            rec.inconclusive += 1
+                        if st6 != "no-regime-to-steer":
+                            rec.case({"f": site, "r": recipe, "p": "regime:" + tg}, nontrivial=st6 == "ok",
+                                labels=["profile:regime", "regime:status:" + st6, "regime:tier:" + str(info6.get("tier"))])
                 if DOCUMENTED_OPS.get((short(modname), fname)) == "ceiling":
                     # documented rounded-up results: magnitudes that are powers of ten hit exactly integral solutions
                     for rot in range(6):
@@ -999,7 +1062,8 @@ def run(ctx: Ctx) -> None:
     kmax = ctx.pick(3, 6)
     nchunks = 48
     chunks = [mods[i::nchunks] for i in range(nchunks)]
-    tasks = [{"mods": c, "k": k, "kmax": kmax, "seed": ctx.seed * 1000 + i, "tiny_all": False} for i, c in enumerate(chunks)]
+    tasks = [{"mods": c, "k": k, "kmax": kmax, "seed": ctx.seed * 1000 + i, "tiny_all": False, "all_regimes": ctx.thorough}
+        for i, c in enumerate(chunks)]
     for status, val in run_tasks(_shard, tasks, timeout=ctx.pick(900, 3600)):
         if status == "timeout":
             ctx.inconclusive += 1
